@@ -53,6 +53,17 @@ def main():
         "expec_2": (lambda: gs().expectation_value(2, 1), ""),
         "psi_2": (lambda: gs().psi(2, "ket"), None),
         "norm_2": (lambda: gs().norm_factor(2), ""),
+        "norm_4": (lambda: gs().norm_factor(4), ""),
+        "expand_density": (lambda: Expr(
+            __import__("adcgen").sympy_objects.AntiSymmetricTensor(
+                f"{tn.gs_density}2", get_symbols("i"), get_symbols("j"), 1) *
+            __import__("adcgen").sympy_objects.NonSymmetricTensor(
+                "x", get_symbols("ij")) +
+            __import__("adcgen").sympy_objects.AntiSymmetricTensor(
+                f"{tn.gs_density}2", get_symbols("a"), get_symbols("b"), 1) *
+            __import__("adcgen").sympy_objects.NonSymmetricTensor(
+                "x", get_symbols("ab")), real=True
+        ).expand_intermediates(fully_expand=False).sympy, ""),
         "precursor_1": (lambda: isr().precursor(1, "ph", "ket", "ia"), None),
         "overlap_pre_2": (lambda: isr().overlap_precursor(2, "ph,ph",
                                                           "ia,jb"), "iajb"),
@@ -105,6 +116,20 @@ def main():
         shared = set(S(again.sympy).atoms(Index)) & \
             set(S(e.sympy).atoms(Index))
         out["shared_contracted"] = sorted(str(s_) for s_ in shared)
+    if job["request"].startswith("norm"):
+        # every index of a norm factor is summed: exactly two occurrences
+        from collections import Counter
+        from sympy import Add, Mul, Pow
+        bad = []
+        for t in Add.make_args(S(e.sympy).expand()):
+            cnt = Counter()
+            for f in Mul.make_args(t):
+                b_, x_ = (f.args if isinstance(f, Pow) else (f, 1))
+                for i in getattr(b_, "idx", ()):
+                    cnt[i] += int(x_)
+            if any(n != 2 for n in cnt.values()):
+                bad.append(str(t)[:120])
+        out["malformed_terms"] = bad[:3]
     if has_ops:
         # operator valued: compare structure after generic -> canonical names
         out["text"] = None
